@@ -1,6 +1,7 @@
 package main
 
 import (
+	"sort"
 	"fmt"
 	"go/ast"
 	"go/token"
@@ -31,6 +32,8 @@ func init() {
 func runC08(c *Ctx) {
 	info := c.info("type1")
 	c.cipherConstants()
+	// info strings over all byte values: every string reaches the program text escaped
+	c.templateEscaping(nil)
 
 	// ---- eexec writer flush: encryption shape
 	{
@@ -327,7 +330,11 @@ func (c *Ctx) templateStructure(info *types.Info) {
 func (c *Ctx) pdfLengths() {
 	f := c.method("type1", "Font", "WritePDF")
 	fname := c.fname(f)
-	cwT := c.typeObj("type1", "countingWriter")
+	cwT, cwField, cw := c.findCountingWriter("type1")
+	if cwT == nil {
+		c.undecided("W-PDFLENGTHS", fname, "the two lengths are byte counts of what was written", f.Pos(), "no byte-counting writer (a type whose Write adds the count returned by the underlying Write to a field) exists in package type1, so the lengths WritePDF reports cannot be tied to the number of bytes it wrote (lengths found by searching the output are wrong as soon as a font string contains the searched text)")
+		return
+	}
 	newE := c.fn("type1", "newEExecWriter")
 	var tmplCalls []*ssa.Call
 	var newCall, closeCall *ssa.Call
@@ -351,7 +358,7 @@ func (c *Ctx) pdfLengths() {
 	})
 	var loads []*ssa.UnOp
 	eachInstr(f, func(ins ssa.Instruction) {
-		if ld, ok := ins.(*ssa.UnOp); ok && ld.Op == token.MUL && isFieldAddr(ld.X, cwT, "n") {
+		if ld, ok := ins.(*ssa.UnOp); ok && ld.Op == token.MUL && isFieldAddr(ld.X, cwT, cwField) {
 			loads = append(loads, ld)
 		}
 	})
@@ -379,19 +386,68 @@ func (c *Ctx) pdfLengths() {
 	}
 	c.check(ok1 && ok2 && why == "", "W-PDFLENGTHS", fname, "length1 = bytes counted after the clear text and before the cipher lead bytes; length2 = bytes counted after Close minus length1", f.Pos(), "counter read between SectionA and newEExecWriter, and after Close",
 		fmt.Sprintf("PDF lengths: first counter read placed correctly: %v, second after Close: %v %s", ok1, ok2, why))
-	// countingWriter adds the count returned by the underlying writer
-	cw := c.method("type1", "countingWriter", "Write")
-	okCount := false
-	eachInstr(cw, func(ins ssa.Instruction) {
-		if st, ok := ins.(*ssa.Store); ok && isFieldAddr(st.Addr, cwT, "n") {
-			if bo, ok := st.Val.(*ssa.BinOp); ok && bo.Op == token.ADD && isFieldLoad(bo.X, cwT, "n") {
-				if ex, ok := bo.Y.(*ssa.Extract); ok && ex.Index == 0 {
-					okCount = true
+	// the counter is written nowhere else
+	okCount := true
+	for _, fn := range c.modFuncs {
+		if fn == cw {
+			continue
+		}
+		eachInstr(fn, func(ins ssa.Instruction) {
+			if st, ok := ins.(*ssa.Store); ok && isFieldAddr(st.Addr, cwT, cwField) {
+				okCount = false
+			}
+		})
+	}
+	c.check(okCount, "W-PDFLENGTHS", c.fname(cw), "the counter advances by the number of bytes the underlying writer accepted", cw.Pos(), "w.n += n", "the byte counter does not add the count returned by the underlying Write")
+}
+
+// findCountingWriter discovers, by shape, the writer that counts bytes: a named struct type of
+// the package with a method Write([]byte) (int, error) that stores field + n into an integer
+// field, n being the count returned by a nested Write call.
+func (c *Ctx) findCountingWriter(pkg string) (*types.TypeName, string, *ssa.Function) {
+	var names []string
+	scope := c.pkg(pkg).Types.Scope()
+	for _, n := range scope.Names() {
+		names = append(names, n)
+	}
+	sort.Strings(names)
+	for _, n := range names {
+		tn, ok := scope.Lookup(n).(*types.TypeName)
+		if !ok {
+			continue
+		}
+		st, ok := tn.Type().Underlying().(*types.Struct)
+		if !ok {
+			continue
+		}
+		sel := types.NewMethodSet(types.NewPointer(tn.Type())).Lookup(c.pkg(pkg).Types, "Write")
+		if sel == nil {
+			continue
+		}
+		m := c.prog.MethodValue(sel)
+		if m == nil || len(m.Blocks) == 0 {
+			continue
+		}
+		for i := 0; i < st.NumFields(); i++ {
+			fld := st.Field(i).Name()
+			found := false
+			eachInstr(m, func(ins ssa.Instruction) {
+				if s, ok := ins.(*ssa.Store); ok && isFieldAddr(s.Addr, tn, fld) {
+					if bo, ok := s.Val.(*ssa.BinOp); ok && bo.Op == token.ADD && isFieldLoad(bo.X, tn, fld) {
+						if ex, ok := bo.Y.(*ssa.Extract); ok && ex.Index == 0 {
+							if call, ok := ex.Tuple.(*ssa.Call); ok && (call.Call.IsInvoke() && call.Call.Method.Name() == "Write" || call.Call.StaticCallee() != nil && call.Call.StaticCallee().Name() == "Write") {
+								found = true
+							}
+						}
+					}
 				}
+			})
+			if found {
+				return tn, fld, m
 			}
 		}
-	})
-	c.check(okCount, "W-PDFLENGTHS", c.fname(cw), "the counter advances by the number of bytes the underlying writer accepted", cw.Pos(), "w.n += n", "the byte counter does not add the count returned by the underlying Write")
+	}
+	return nil, "", nil
 }
 
 func (c *Ctx) encodingWriter(info *types.Info) {
